@@ -154,6 +154,22 @@ def numericForm : Bytes → Bool
     if d = 120 ∨ d = 88 then !ds.isEmpty && ds.all hexdigit else (d :: ds).all digit
   | _ => false
 
+/-- the mathematical value of the digit string of a numeric reference (`none` if it is not of numeric form) -/
+def hexVal (c : UInt8) : Nat :=
+  if digit c then c.toNat - 48 else if 97 ≤ c then c.toNat - 87 else c.toNat - 55
+
+def numericValue : Bytes → Nat
+  | 35 :: d :: ds =>
+    if d = 120 ∨ d = 88 then ds.foldl (fun acc c => acc * 16 + hexVal c) 0
+    else (d :: ds).foldl (fun acc c => acc * 10 + hexVal c) 0
+  | _ => 0
+
+/-- XML 1.0 `Char`: `#x9 | #xA | #xD | [#x20-#xD7FF] | [#xE000-#xFFFD] | [#x10000-#x10FFFF]` — what a numeric
+character reference may denote (no control characters, no surrogates, no non-characters FFFE/FFFF, nothing beyond
+U+10FFFF), stated on the mathematical value of the digit string, however long -/
+def xmlChar (v : Nat) : Bool :=
+  v = 0x9 || v = 0xA || v = 0xD || (0x20 ≤ v && v ≤ 0xD7FF) || (0xE000 ≤ v && v ≤ 0xFFFD) || (0x10000 ≤ v && v ≤ 0x10FFFF)
+
 /-- the character references an attribute value may contain: what may follow `&` -/
 def valueEntities : List Bytes :=
   [[97, 109, 112, 59], [108, 116, 59], [103, 116, 59], [113, 117, 111, 116, 59], [97, 112, 111, 115, 59],
@@ -202,7 +218,8 @@ def attrsOk (r : Rules) (tag : Bytes) : List (Bytes × Option Bytes) → List By
 def allowed (r : Rules) : Markup → Bool
   | .stray _ => false
   | .bogus _ => false
-  | .entity name terminated => terminated && (r.entity name || (r.numeric && numericForm name))
+  | .entity name terminated =>
+    terminated && (r.entity name || (r.numeric && numericForm name && xmlChar (numericValue name)))
   | .comment body closed =>
     closed && r.comments && body.all (fun c => c != 60 && c != 62 && c != 38) && !hasDashDash body
   | .tag closing name attrs selfClosing terminated =>
@@ -249,5 +266,53 @@ def utf8WellFormed : Bytes → Bool
               | [] => false
           | [] => false
       | [] => false
+
+/-! ### single-byte code pages, independent of the library's validators
+
+Which bytes are text in a code page: TAB, LF, CR, the printable ASCII range 20–7E, and the bytes ≥ 80 the code page
+assigns a graphic character to.  C0 controls, DEL and (for ISO-8859-x) the C1 range 80–9F are not text; unassigned
+positions are listed per page (transcribed from the Unicode mapping tables MAPPINGS/ISO8859 and
+MAPPINGS/VENDORS/MICSFT/WINDOWS, ISO-8859-7 in its 2003 edition).  Pages covered: ISO-8859-1…11, 13…16, windows-1250…1258,
+KOI8-R/U, US-ASCII, with the aliases latin1, cp125x, ascii. -/
+
+/-- encoding names are compared on their letters and digits, ASCII-case-insensitively -/
+def normName (n : Bytes) : String :=
+  String.ofList ((n.filter fun c => letter c || digit c).map fun c => Char.ofNat (asciiLower c).toNat)
+
+/-- `none` = page not covered; `some (c1IsControl, unassigned)` -/
+def codePage (n : String) : Option (Bool × List UInt8) :=
+  let iso (l : List UInt8) := some (true, l)
+  let win (l : List UInt8) := some (false, l)
+  match n with
+  | "latin1" | "iso88591" | "iso88592" | "iso88594" | "iso88595" | "iso88599" | "iso885910" | "iso885913"
+  | "iso885914" | "iso885915" | "iso885916" => iso []
+  | "iso88593" => iso [0xA5, 0xAE, 0xBE, 0xC3, 0xD0, 0xE3, 0xF0]
+  | "iso88596" => iso ([0xA1, 0xA2, 0xA3, 0xA5, 0xA6, 0xA7, 0xA8, 0xA9, 0xAA, 0xAB, 0xAE, 0xAF, 0xB0, 0xB1, 0xB2, 0xB3, 0xB4, 0xB5,
+      0xB6, 0xB7, 0xB8, 0xB9, 0xBA, 0xBC, 0xBD, 0xBE, 0xC0, 0xDB, 0xDC, 0xDD, 0xDE, 0xDF, 0xF3, 0xF4, 0xF5, 0xF6, 0xF7, 0xF8, 0xF9,
+      0xFA, 0xFB, 0xFC, 0xFD, 0xFE, 0xFF])
+  | "iso88597" => iso [0xAE, 0xD2, 0xFF]
+  | "iso88598" => iso ([0xA1, 0xFB, 0xFC, 0xFF] ++ (List.range 32).map fun i => UInt8.ofNat (0xBF + i))
+  | "iso885911" => iso [0xDB, 0xDC, 0xDD, 0xDE, 0xFC, 0xFD, 0xFE, 0xFF]
+  | "windows1250" | "cp1250" => win [0x81, 0x83, 0x88, 0x90, 0x98]
+  | "windows1251" | "cp1251" => win [0x98]
+  | "windows1252" | "cp1252" => win [0x81, 0x8D, 0x8F, 0x90, 0x9D]
+  | "windows1253" | "cp1253" => win [0x81, 0x88, 0x8A, 0x8C, 0x8D, 0x8E, 0x8F, 0x90, 0x98, 0x9A, 0x9C, 0x9D, 0x9E, 0x9F, 0xAA, 0xD2, 0xFF]
+  | "windows1254" | "cp1254" => win [0x81, 0x8D, 0x8E, 0x8F, 0x90, 0x9D, 0x9E]
+  | "windows1255" | "cp1255" => win [0x81, 0x8A, 0x8C, 0x8D, 0x8E, 0x8F, 0x90, 0x9A, 0x9C, 0x9D, 0x9E, 0x9F, 0xCA, 0xD9, 0xDA, 0xDB,
+      0xDC, 0xDD, 0xDE, 0xDF, 0xFB, 0xFC, 0xFF]
+  | "windows1256" | "cp1256" => win []
+  | "windows1257" | "cp1257" => win [0x81, 0x83, 0x88, 0x8A, 0x8C, 0x90, 0x98, 0x9A, 0x9C, 0x9F, 0xA1, 0xA5]
+  | "windows1258" | "cp1258" => win [0x81, 0x8A, 0x8D, 0x8E, 0x8F, 0x90, 0x9A, 0x9D, 0x9E]
+  | "koi8r" | "koi8u" => win []
+  | "usascii" | "ascii" => some (true, (List.range 96).map fun i => UInt8.ofNat (0xA0 + i))
+  | _ => none
+
+def pageByteOk (p : Bool × List UInt8) (c : UInt8) : Bool :=
+  c = 9 || c = 10 || c = 13 || (0x20 ≤ c && c ≤ 0x7E) ||
+    (0x80 ≤ c && !(p.1 && c < 0xA0) && !p.2.contains c)
+
+/-- `none`: code page not covered by the tables -/
+def singleByteTextOk (name : Bytes) (x : Bytes) : Option Bool :=
+  (codePage (normName name)).map fun p => x.all (pageByteOk p)
 
 end Cppcms.C04.Spec
